@@ -687,7 +687,8 @@ esl_buffer_SetOffset(ESL_BUFFER *bf, esl_pos_t offset)
 	    {
 	      bf->pos = bf->n;
 	      status  = buffer_refill(bf, 0);
-	      if      (status == eslEOF) ESL_EXCEPTION(eslEINVAL, "requested offset is beyond end of stream");
+	      if      (status == eslEOF && offset == bf->baseoffset + bf->n) break; /* offset is exactly the end of the stream (e.g. rewinding an empty input): legal, leaves us at EOF */
+	      else if (status == eslEOF) ESL_EXCEPTION(eslEINVAL, "requested offset is beyond end of stream");
 	      else if (status != eslOK)  return status;
 	    }
 	  bf->pos = offset - bf->baseoffset;
